@@ -34,6 +34,7 @@ type Exporter struct {
 	tree   *ImmutableTree
 	ch     chan *ExportNode
 	cancel context.CancelFunc
+	err    error // traversal error, set before ch is closed
 }
 
 // NewExporter creates a new Exporter. Callers must call Close() when done.
@@ -63,7 +64,19 @@ func newExporter(tree *ImmutableTree) (*Exporter, error) {
 
 // export exports nodes
 func (e *Exporter) export(ctx context.Context) {
-	e.tree.root.traversePost(e.tree, true, func(node *Node) bool {
+	defer close(e.ch)
+	// post-order traversal of the whole tree; unlike traversePost it does not drop a node-fetch
+	// error, which would end the stream early as if the export were complete
+	t := e.tree.root.newTraversal(e.tree, nil, nil, true, false, true)
+	for {
+		node, err := t.next()
+		if err != nil {
+			e.err = err
+			return
+		}
+		if node == nil {
+			return
+		}
 		exportNode := &ExportNode{
 			Key:     node.key,
 			Value:   node.value,
@@ -73,18 +86,19 @@ func (e *Exporter) export(ctx context.Context) {
 
 		select {
 		case e.ch <- exportNode:
-			return false
 		case <-ctx.Done():
-			return true
+			return
 		}
-	})
-	close(e.ch)
+	}
 }
 
 // Next fetches the next exported node, or returns ExportDone when done.
 func (e *Exporter) Next() (*ExportNode, error) {
 	if exportNode, ok := <-e.ch; ok {
 		return exportNode, nil
+	}
+	if e.err != nil {
+		return nil, e.err
 	}
 	return nil, ErrorExportDone
 }
